@@ -7,6 +7,7 @@
   C05-c  no silent truncation: write_offset narrows only through u16::try_from / Uint24::checked_new (no `as` cast)
   C05-d  the two overflow predicates (has_overflows, find_overflows) branch on the same normalised conditions
 """
+import re
 from ..facts import Facts
 from ..mir import op_place, op_local, Term
 from ..typestate import Explorer, ret_class, trace_lines
@@ -159,7 +160,62 @@ def run(chk):
     chk.assume("node positions used by the overflow predicates equal the byte offsets serialize() produces (value level, not decided)")
 
 
+def dedup_key_check(chk, facts):
+    """C05-e: objects are merged by ObjectStore only when equal; the equality / hash that decides it must observe every
+    byte and every field of every offset record, or two different tables collapse into one object"""
+    chk.rule("C05-e", "T-TYPE: the de-duplication key of the object store (TableData) is compared and hashed over `bytes` and "
+                      "`offsets`; OffsetRecord, OffsetLen and ObjectId derive PartialEq/Eq/Hash (all fields) or their hand-written "
+                      "impls read every field")
+    W = "write_fonts::write::"
+    impls = {}
+    for r in facts.records("impl", "write_fonts"):
+        impls.setdefault(r.get("self_ty"), {})[r.get("trait")] = r
+    adts = {r["path"]: r for r in facts.records("adt", "write_fonts")}
+
+    def fields_read(path_re):
+        out = set()
+        for b in facts.find_bodies(path_re, "write_fonts"):
+            for blk in b.blocks:
+                for st in blk.stmts:
+                    if st[0] != "A":
+                        continue
+                    txt = repr(st[2])
+                    for m in re.finditer(r"\['f', \d+, '(\w+)', '([\w:]+)'", txt):
+                        out.add((m.group(2), m.group(1)))
+                t = blk.term
+                if t.kind == "call":
+                    for m in re.finditer(r"\['f', \d+, '(\w+)', '([\w:]+)'", repr(t.args)):
+                        out.add((m.group(2), m.group(1)))
+        return out
+
+    def check_type(ty, required):
+        a = adts.get(ty)
+        chk.anchor("C05-e", ty, a)
+        im = impls.get(ty, {})
+        for tr, fn in (("core::cmp::PartialEq", "eq"), ("core::hash::Hash", "hash")):
+            r = im.get(tr)
+            if r is None:
+                chk.ob("C05-e", f"{ty.split('::')[-1]}: impl {tr.split('::')[-1]} exists", False, key=f"{ty}|{tr}|missing",
+                       detail="the de-duplication key type must be comparable and hashable")
+                continue
+            if r.get("derived"):
+                chk.ob("C05-e", f"{ty.split('::')[-1]}: {tr.split('::')[-1]} is derived (observes every field)", True)
+                continue
+            names = required if required is not None else [f[0] for v in a["variants"] for f in v[1]]
+            seen = fields_read(r"^<" + re.escape(ty) + r" as " + re.escape(tr) + r">::" + fn + r"$")
+            missing = [n for n in names if (ty, n) not in seen]
+            chk.ob("C05-e", f"{ty.split('::')[-1]}: hand-written {tr.split('::')[-1]}::{fn} reads {sorted(n for t, n in seen if t == ty)}",
+                   not missing, key=f"{ty}|{tr}|fields", file=r.get("file"), line=r.get("line"),
+                   detail=f"field(s) {missing} are not observed: two objects differing only there are merged into one, and an "
+                          f"offset written for one resolves to the other")
+    check_type(W + "TableData", ["bytes", "offsets"])
+    check_type(W + "OffsetRecord", None)
+    check_type("write_fonts::graph::OffsetLen", None)
+    check_type("write_fonts::graph::ObjectId", None)
+
+
 def run_config(chk, facts):
+    dedup_key_check(chk, facts)
     po = chk.anchor("C05-a", G + "pack_objects", facts.body(G + "pack_objects"))
     bs = chk.anchor("C05-a", G + "basic_sort", facts.body(G + "basic_sort"))
     chk.rule("C05-a", "T-STATE {dirty, clean}: any call taking &mut Graph makes the graph dirty; the no-overflow edge of "
